@@ -147,7 +147,7 @@ def _from_notes(pid):
             "text": bullet("level_claimed.text") or bullet("level_claimed"), "note": bullet("level_note")}
 
 
-FROM_NOTES = ["C05", "C12", "C13", "C15", "C16", "C17", "C19", "C20"]
+FROM_NOTES = ["C05", "C09", "C10", "C12", "C13", "C15", "C16", "C17", "C19", "C20"]
 for _p in FROM_NOTES:
     try:
         CHECKS[_p] = _from_notes(_p)
